@@ -42,10 +42,25 @@ func init() {
 		"(*regexp.Regexp).FindStringSubmatch": inRegexFindSubmatch,
 		"strconv.ParseUint":                   inParseUint,
 		"(*sync.Pool).Get":                    inPoolGet,
-		"(*strings.Builder).WriteString":      inBuilderWrite,
-		"(*strings.Builder).Write":            inBuilderWrite,
-		"(*strings.Builder).WriteByte":        inBuilderWriteByte,
-		"(*strings.Builder).WriteRune":        inBuilderWriteRune,
+		// html/template is not interpreted (reflection): building a template
+		// succeeds and executing it does nothing; what the template would call back
+		// in this package is checked separately (VH_C14_HTMLHelpers)
+		"html/template.New": func(e *Exec, fn *ssa.Function, a []Value) Value {
+			return &Pointer{Slot: valp(&StructV{}), Obj: &Object{Kind: "template"}}
+		},
+		"(*html/template.Template).Funcs": func(e *Exec, fn *ssa.Function, a []Value) Value { return a[0] },
+		"(*html/template.Template).Parse": func(e *Exec, fn *ssa.Function, a []Value) Value { return TupleV{a[0], (*IfaceV)(nil)} },
+		"(*html/template.Template).Execute": func(e *Exec, fn *ssa.Function, a []Value) Value {
+			e.note("summary:html/template.Execute not interpreted")
+			return (*IfaceV)(nil)
+		},
+		"runtime.GOMAXPROCS":             func(e *Exec, fn *ssa.Function, a []Value) Value { return e.ctx.Int(1) },
+		"time.Now":                       func(e *Exec, fn *ssa.Function, a []Value) Value { return e.zero(fn.Signature.Results().At(0).Type()) },
+		"(time.Time).Truncate":           func(e *Exec, fn *ssa.Function, a []Value) Value { return a[0] },
+		"(*strings.Builder).WriteString": inBuilderWrite,
+		"(*strings.Builder).Write":       inBuilderWrite,
+		"(*strings.Builder).WriteByte":   inBuilderWriteByte,
+		"(*strings.Builder).WriteRune":   inBuilderWriteRune,
 		"(*strings.Builder).String": func(e *Exec, fn *ssa.Function, a []Value) Value {
 			return e.mkString(append([]*Term{}, e.builders[a[0].(*Pointer).Slot]...))
 		},
